@@ -60,7 +60,10 @@ def evaluate(case, out):
     n = len(x)
     out.cls(cfg["family"])
     test = nonneg.make_test(cfg)
-    xa = np.array(x, dtype=float)
+    # the sample as the caller holds it: floats, or (every other case) whole numbers as integers
+    xa = nonneg.natural(x) if len(x) % 2 == 1 else np.array(x, dtype=float)
+    if xa.dtype.kind in "iu":
+        out.cls("integer-typed-sample")
     if len(x) % 2 == 0:
         # the upper bound of a test object is re-assigned when margins become known (Assertion.set_margin_from_cvrs):
         # estimators / bets asked before that, under a larger bound, must not influence the values under the final one
